@@ -73,6 +73,58 @@ where
     IsoPool { full, small_order, order121, structured }
 }
 
+/// G1: abscissae at which a Horner PARTIAL SUM of one of the four map polynomials vanishes (roots of the polynomial
+/// formed by its top j+1 coefficients; j = degree gives the roots of the whole polynomial, i.e. image x = 0 / y = 0 for
+/// the numerators). Computed once by `verif-pbt gen-iso-roots` (model root finding over Fq) and kept in
+/// corpus/iso-truncation-roots.json; every entry is re-verified here by evaluating the truncation.
+pub fn g1_truncation_points() -> Vec<(String, Pt<Fq>)> {
+    let path = crate::props::corpus_dir("").join("iso-truncation-roots.json");
+    let mut out = vec![];
+    let t = h2c::iso11_tables();
+    let tabs = [("xnum", &t.xnum), ("xden", &t.xden), ("ynum", &t.ynum), ("yden", &t.yden)];
+    if let Ok(text) = std::fs::read_to_string(&path) {
+        if let Ok(serde_json::Value::Array(a)) = serde_json::from_str::<serde_json::Value>(&text) {
+            let c = e1_iso();
+            for e in a {
+                let (tab, j, xh) = (e["table"].as_str().unwrap_or(""), e["top_coefficients"].as_u64().unwrap_or(0) as usize, e["x"].as_str().unwrap_or("0"));
+                let x = Fq::from_hex(xh);
+                if let Some((_, cs)) = tabs.iter().find(|(n, _)| *n == tab) {
+                    if j >= 2 && j <= cs.len() {
+                        let tr = &cs[cs.len() - j..];
+                        let mut acc = Fq::zero();
+                        for k in tr.iter().rev() {
+                            acc = acc.mul(&x).add(k);
+                        }
+                        if acc.is_zero() {
+                            if let Some(y) = c.rhs(&x).sqrt() {
+                                let label = format!("root-of-the-top-{}-coefficients-of-{}", j, tab);
+                                out.push((label.clone(), Pt::Aff(x.clone(), y.clone())));
+                                out.push((label, Pt::Aff(x.clone(), y.neg())));
+                            }
+                        }
+                    }
+                }
+            }
+        }
+    }
+    out
+}
+
+/// model computation behind corpus/iso-truncation-roots.json
+pub fn gen_iso_roots() -> serde_json::Value {
+    let t = h2c::iso11_tables();
+    let mut out = vec![];
+    for (name, cs) in [("xnum", &t.xnum), ("xden", &t.xden), ("ynum", &t.ynum), ("yden", &t.yden)] {
+        for j in 2..=cs.len() {
+            let tr: Vec<Fq> = cs[cs.len() - j..].to_vec();
+            for x in refmodel::fld::poly_roots_fq(&tr) {
+                out.push(json!({"table": name, "top_coefficients": j, "x": format!("{:x}", x.0)}));
+            }
+        }
+    }
+    Value::Array(out)
+}
+
 static IPOOL1: OnceLock<IsoPool<Fq>> = OnceLock::new();
 static IPOOL2: OnceLock<IsoPool<Fq2>> = OnceLock::new();
 
@@ -89,7 +141,11 @@ impl IsoGrp for G1m {
         e1_iso()
     }
     fn iso_pool() -> &'static IsoPool<Fq> {
-        IPOOL1.get_or_init(|| build_iso_pool::<G1m>(&e1_iso(), 0x150_1, true))
+        IPOOL1.get_or_init(|| {
+            let mut p = build_iso_pool::<G1m>(&e1_iso(), 0x150_1, true);
+            p.structured.extend(g1_truncation_points());
+            p
+        })
     }
     fn tables() -> IsoTables<Fq> {
         h2c::iso11_tables()
